@@ -306,7 +306,7 @@ pub fn check_program(prog: &Rc<Prog>, len: usize, default_variant: bool, injecti
 pub fn run(tier: Tier) -> i32 {
     let started = std::time::Instant::now();
     let (len, secs) = match tier {
-        Tier::Quick => (4, 45),
+        Tier::Quick => (3, 50),
         Tier::Thorough => (5, 1800),
     };
     let n = SCRIPTS.len();
